@@ -200,6 +200,10 @@ class Exec:
                 return L.numval(v.t)
         if kind == 'int' and v.kind == 'ref':
             return z3.ToInt(L.numval(v.t))
+        if kind == 'str' and v.kind == 'ref':
+            # a reference handed to a parameter used as a string: it must be one
+            self.oblige(st, 'argument-is-a-string', L.is_str(v.t), 'call-pre')
+            return L.strval(v.t)
         if kind == 'set' and v.kind == 'list':
             # A-LISTSET: a list of pairwise distinct elements handed to code that only iterates it,
             # tests it for emptiness or passes it to asyncio.wait is abstracted as the set of its elements
